@@ -87,13 +87,15 @@ static int run(unsigned limit, int nJunk)
     printf("  client Finished -> server rc=%d; app data delivered to server: "
            "%d bytes (%.*s)\n", first, srv.appLen, srv.appLen, srv.app);
 
-    if (tolerated == nJunk && junkBytes > limit && srv.appLen > 0)
+    if (tolerated == nJunk && srv.appLen > 0)
     {
-        printf("VIOLATION: server tolerated %lu bytes of undecryptable records "
+        printf("VIOLATION: server tolerated %d undecryptable records = %lu bytes "
                "(configured limit %u), reported success for each, and the "
-               "session went on to deliver application data\n", junkBytes, limit);
+               "session went on to deliver application data\n", tolerated, junkBytes, limit);
         return 1;
     }
+    printf("OK: limit=%u: server gave up after %d undecryptable records\n",
+           limit, tolerated);
     return 0;
 }
 
@@ -177,15 +179,64 @@ static int runB(void)
                "delivered application data\n", rcJunk);
         return 1;
     }
+    printf("OK: partB: the undecryptable record after the start of the client's "
+           "second flight ended the session\n");
     return 0;
+}
+
+/* Control: honest client that offers early data, really sends some, is
+   rejected by the server (which has to skip it) and completes the handshake */
+static int runControl(void)
+{
+    sslKeys_t *keys;
+    sslSessOpts_t co, so;
+    side_t cli, srv;
+    psProtocolVersion_t v13[1] = { v_tls_1_3 };
+    psTls13SessionParams_t params;
+    psCipher16_t suite[1] = { 0x1301 };
+    static unsigned char wire[65536];
+    int32_t rc;
+    int n;
+
+    keys = loadRsaKeys();
+    memset(&params, 0, sizeof(params));
+    params.maxEarlyData = 16384;
+    params.cipherId = 0x1301;
+    matrixSslLoadTls13Psk(keys, psk, sizeof(psk), pskId, sizeof(pskId), &params);
+    memset(&cli, 0, sizeof(cli)); memset(&srv, 0, sizeof(srv));
+    cli.name = "client"; srv.name = "server";
+    memset(&co, 0, sizeof(co)); memset(&so, 0, sizeof(so));
+    matrixSslSessOptsSetClientTlsVersions(&co, v13, 1);
+    matrixSslSessOptsSetServerTlsVersions(&so, v13, 1);
+    so.tls13SessionMaxEarlyData = 16384;
+    if (matrixSslNewServerSession(&srv.ssl, keys, NULL, &so) < 0) return 2;
+    rc = matrixSslNewClientSession(&cli.ssl, keys, NULL, suite, 1, certCb,
+            NULL, NULL, NULL, &co);
+    if (rc != MATRIXSSL_REQUEST_SEND) return 2;
+    /* real early data, three records, one of them empty-ish small */
+    rc = matrixSslEncodeToOutdata(cli.ssl, (unsigned char *) "early-data-1", 12);
+    rc = matrixSslEncodeToOutdata(cli.ssl, (unsigned char *) "e", 1);
+    rc = matrixSslEncodeToOutdata(cli.ssl, (unsigned char *) "early-data-3-longer-record", 26);
+    if (handshake(&cli, &srv) < 0)
+    {
+        printf("CONTROL FAILED: honest rejected-early-data handshake did not complete\n");
+        return 2;
+    }
+    n = sendApp(&cli, "control", wire, sizeof(wire));
+    if (n > 0) feed(&srv, wire, n, NULL);
+    printf("control: honest client with rejected early data (encode rc=%d): handshake "
+           "complete, early data delivered to app=%s, 1-RTT data delivered: %.*s\n",
+           rc, srv.appLen > 7 ? "YES(!)" : "no", srv.appLen, srv.app);
+    return (srv.appLen == 7 && !memcmp(srv.app, "control", 7)) ? 0 : 2;
 }
 
 int main(void)
 {
     int v = 0;
     if (matrixSslOpen() < 0) return 2;
-    v |= run(16384, 1000); /* 22000 bytes > 16384 */
-    v |= run(0, 1000);     /* early data "disabled" by a zero limit: still tolerated */
+    v |= run(16384, 20000); /* 440000 wire bytes, 20000 records */
+    v |= run(0, 1000);      /* early data "disabled" by a zero limit: still tolerated */
     v |= runB();
+    if (runControl() != 0) { printf("control case failed\n"); return 2; }
     return v ? 1 : 0;
 }
